@@ -211,13 +211,23 @@ func checkC12(c *Ctx, r *Report) {
 						return true
 					}
 					okObj := identObj(info, as.Lhs[1])
-					un, isNot := unparen(is.Cond).(*ast.UnaryExpr)
-					if okObj == nil || !isNot || un.Op != token.NOT || identObj(info, un.X) != okObj {
+					// the test's own condition: `!ok`, possibly joined with `<symbol>.IsNonTerminator`
+					extra := ""
+					sawNT := false
+					sawNotOK := false
+					for _, cj := range flattenAnd(is.Cond) {
+						if un, isNot := unparen(cj).(*ast.UnaryExpr); isNot && un.Op == token.NOT && okObj != nil && identObj(info, un.X) == okObj {
+							sawNotOK = true
+						} else if se, ok := unparen(cj).(*ast.SelectorExpr); ok && fieldNamed(info, se, "IsNonTerminator") && identObj(info, se.X) == elem {
+							sawNT = true
+						} else {
+							extra = exprString(cj)
+						}
+					}
+					if !sawNotOK {
 						return true
 					}
 					// guards between the loop and the test: exactly `<symbol>.IsNonTerminator`
-					extra := ""
-					sawNT := false
 					for cur := ast.Node(is); cur != nil && cur != ast.Node(rs.Body); cur = cf.pm[cur] {
 						if par, ok := cf.pm[cur].(*ast.IfStmt); ok && cur == ast.Node(par.Body) {
 							for _, cj := range flattenAnd(par.Cond) {
